@@ -286,10 +286,13 @@ class Tensor:
     @staticmethod
     def fresh(fn, shape, dtype, deps=frozenset(), origin='fresh'):
         shape = tuple(norm_int(s) for s in shape)
-        st = Storage(fn, shape, origin)
         c = Ctx.current
-        if c is not None and not c.grad_enabled:
+        if c is not None and not c.grad_enabled and deps:
+            # computed under no_grad from graph-connected operands: the result carries no graph
+            fn0 = fn
+            fn = lambda idx: tm.app('stopgrad', fn0(idx))
             deps = frozenset()
+        st = Storage(fn, shape, origin)
         return Tensor(st, shape, dtype, deps=deps, requires_grad=bool(deps))
 
     @staticmethod
@@ -401,7 +404,8 @@ class Tensor:
         return ctx().decide(tm.ne(t, tm.const(0, t.sort)))
 
     def item(self):
-        return wrap(self._as_scalar_term())
+        t = self._as_scalar_term()
+        return wrap(tm.app('stopgrad', t) if self.deps else t)
 
     def __float__(self):
         t = self._as_scalar_term()
@@ -491,8 +495,16 @@ class Tensor:
 
     # ---- autograd metadata
     def detach(self):
-        t = Tensor(self.storage, self._shape, self.dtype, self._fwd, self._inv, frozenset(), False)
+        """same values, cut from the graph: element terms are wrapped in the identity `stopgrad` whose
+        derivative is zero (ghost marker used by the gradient-faithfulness obligations, C14)"""
+        if not self.deps:
+            t = Tensor(self.storage, self._shape, self.dtype, self._fwd, self._inv, frozenset(), False)
+            t._detached_from = self
+            return t
+        rd = self.reader()
+        t = Tensor.fresh(lambda idx: tm.app('stopgrad', rd(idx)), self._shape, self.dtype, frozenset())
         t._detached_from = self
+        t._inv = False
         return t
 
     def requires_grad_(self, flag=True):
